@@ -34,6 +34,8 @@ def has_nontrivial_atom(d):
 
 
 def run_pass(ctx, runs):
+    import time
+    t0 = time.time()
     ok, log = lib.coq_make(["theories/PassCNMatch.vo"])
     cov = ctx.coverage.setdefault("pass_models", {})
     st = {"instances": 0, "in_model": 0, "model_equals_polar": 0, "outside_model_abstraction_or_unreduced": 0,
@@ -113,7 +115,7 @@ def run_pass(ctx, runs):
                               no_input=True)
     print(f"  [pass ConditionsNormalizer] instances={st['instances']} in_model={st['in_model']} model==polar={st['model_equals_polar']} "
           f"check_types={st['hypothesis_check_types']} with_inequalities={st['inequality_atoms_rewritten']} "
-          f"outside_model={st['outside_model_abstraction_or_unreduced']}", flush=True)
+          f"outside_model={st['outside_model_abstraction_or_unreduced']} wall={time.time() - t0:.1f}s", flush=True)
     ctx.coverage["trusted_base"] += ["harness/pass_condnorm.py + harness/core.py: conversion of Polar's snapshots and inferred types to "
                                      "Syntax.flatprog / Types.tenv (the comparison, PassCNMatch.cn_matches, runs inside Coq)"]
     ctx.assumptions += ["ConditionsNormalizer: C02_cn_pass_preserves needs Types.check_types (C05 validator; evaluated on every instance: "
